@@ -300,7 +300,7 @@ var c15Part = evid.Part[C15Case]{
 	Prop: "C15", Name: "controls", Quick: 700, Thorough: 280000,
 	Rule: "(graph, selector) from the C07 generators; against the unrestricted WalkAdv: node budget N for every N in 0..V+1, link budget M for every M in 0..L+1 (also on Get and Focus along visited paths that cross links), StartAtPath for every visited path, LinkVisitOnlyOnce, and a loader returning SkipMe for a drawn set of links — each control alone; non-trivial = at least two controls actually bind (N<V, M<L, start index>0, a repeated link, a skipped link that is loaded); distinct by (graph, selector, skip set); the class 'walks' counts restricted walks executed",
 	Gen: func(t *rapid.T) C15Case {
-		c := genGraphSel(t, rapid.IntRange(1, 4).Draw(t, "seldepth"))
+		c := genGraphSelOpt(t, rapid.IntRange(1, 4).Draw(t, "seldepth"), true)
 		if rapid.IntRange(0, 2).Draw(t, "broad") == 0 {
 			// a broad selector, so that the controls have something to restrict
 			c.S = refsel.Rec(int64(rapid.SampledFrom([]int{-1, 2, 3, 5, 8}).Draw(t, "limit")), refsel.Union(refsel.Match(), refsel.All(refsel.Edge())))
